@@ -55,7 +55,12 @@ func runC18(e *Engine, g G, o RunOpt) RunInfo {
 	sc.Client.WebSocket = g.Pct("websocket", 20)
 	sc.TLS = !sc.Client.WebSocket && g.Pct("tls", 20)
 	sc.Busy = g.Bool("busy")
-	sc.End = []string{"none", "cut", "disconnect", "stream-error", "ka-write-fails", "server-close"}[g.Weighted("end", 2, 3, 3, 2, 4, 3)]
+	sc.End = []string{"none", "cut", "disconnect", "stream-error", "ka-write-fails", "server-close", "silent-peer"}[g.Weighted("end", 2, 3, 3, 2, 4, 3, 2)]
+	if sc.End == "silent-peer" && !sc.Client.WebSocket {
+		// over TCP a keepalive is a write the kernel accepts: a dark link is found out by nobody
+		// within any time this library controls - there is nothing to assert
+		sc.End = "cut"
+	}
 	sc.Block = sc.End != "none" && g.Pct("callback-blocks", 30)
 	// ... or reconnects from within the callback, the way a StreamManager does
 	sc.Reconnect = !sc.Block && !sc.Client.WebSocket && (sc.End == "cut" || sc.End == "server-close" || sc.End == "ka-write-fails") && g.Pct("reconnect-in-callback", 35)
@@ -255,6 +260,13 @@ func runC18(e *Engine, g G, o RunOpt) RunInfo {
 			case "stream-error":
 				s.SrvSend("<stream:error xmlns:stream='" + nsStream + "'><conflict xmlns='" + nsStreams + "'/></stream:error>")
 				e.Fault("stream.error")
+			case "silent-peer":
+				// the link goes dark in both directions: nothing arrives any more, nothing fails at once.
+				// Only the keepalive can find out (TCP: its writes are accepted for ever - nothing to
+				// find out; WebSocket: the pong does not come back).
+				cli.Blackhole = true
+				s.SrvEnd().Blackhole = true
+				e.Fault("link.black_hole")
 			case "server-close":
 				if s.WSC != nil {
 					s.WSC.Send("<close xmlns='" + nsFraming + "'/>")
@@ -278,7 +290,7 @@ func runC18(e *Engine, g G, o RunOpt) RunInfo {
 				// the end of the session is announced by a Disconnected event (loss)
 				// or a StreamError event (the server ended the stream with an error)
 				// (on the WebSocket transport a lost connection is only noticed by the next keepalive)
-				e.WaitUntilFor("await-end", 2*interval+time.Duration(sc.Client.ConnectTimeout+10)*time.Second, func() bool {
+				e.WaitUntilFor("await-end", 2*interval+time.Duration(sc.Client.ConnectTimeout+20)*time.Second, func() bool {
 					return countState(s.W.Events, xmpp.StateDisconnected)+countState(s.W.Events, xmpp.StateStreamError) > 0
 				})
 				tEnd = lastDisconnected(s.W)
